@@ -28,8 +28,14 @@ THEOREMS = [
     "C07_foreign_connection_dropped",
     "C07_loaded_macro_not_resavable",
     "C07_cached_io_view_drops_link",
+    "C07_last_save_wins",
+    "C07_stale_file_shadows",
     "C07_load_in_place",
     "C07_load_in_place_orphans",
+    "C07_refused_connection_unloadable",
+    "C07_roundtrip_file_own",
+    "C07_rerun_dag",
+    "C07_rerun_store",
 ]
 RULE = (
     "seeded random graphs built from REAL objects (term function nodes, transformers, for-loops, nested macros "
@@ -123,7 +129,7 @@ def snap(node):
         "own_conns": sum(len(c.connections) for p in (node.inputs, node.outputs, node.signals.input,
                                                       node.signals.output) for c in p) if kind != "w" else 0,
         "start": [], "prov": [], "ilinks": [], "olinks": [], "children": [],
-        "di": [], "do": [], "si": [], "so": [], "ioview": [],
+        "di": [], "do": [], "si": [], "so": [], "ioview": [], "refused": [],
     }
     if kind == "w" and node.__dict__.get("_inputs") is not None:
         # what `_rebuild_data_io` left behind: a view of the exposed child inputs, pickled before the children
@@ -140,6 +146,13 @@ def snap(node):
             for k, c in ch.inputs.items():
                 if c.connections:
                     d["di"].append([[ch.label, k], _conn_list(c, node)])
+                    for o in c.connections:
+                        try:
+                            okay = c._valid_connection(o)
+                        except Exception:  # noqa: BLE001
+                            okay = True
+                        if not okay:  # accepted when it was made, would be refused by today's hints
+                            d["refused"].append([[ch.label, k], [o.owner.label, o.label]])
             for k, c in ch.outputs.items():
                 if c.connections:
                     d["do"].append([[ch.label, k], _conn_list(c, node)])
@@ -235,6 +248,9 @@ def model_rows(I, s, rows, parent=None):
         rows.append(f"ilink {nid} {I('din', k)} {I('node', cl)} {I('din', cx)}")
     for cl, co, out in s["olinks"]:
         rows.append(f"olink {nid} {I('node', cl)} {I('dout', co)} {I('dout', out)}")
+    for a, b in s.get("refused", []):
+        x, y = _addr(I, "di", a), _addr(I, "do", b)
+        rows.append(f"refused {nid} {x[0]} {x[1]} {y[0]} {y[1]}")
     for side, fl, io in (("di", "d", "i"), ("do", "d", "o"), ("si", "s", "i"), ("so", "s", "o")):
         for key, lst in s[side]:
             a = _addr(I, side, key)
@@ -363,9 +379,31 @@ def variant():
     fn2 = os.path.join(os.getcwd(), "pv_probe_dir", "pv_inplace")
     wv.pl.save(backend="pickle", filename=fn2)
     wv.pl.load(backend="pickle", filename=fn2)
-    keepplace = wv.pl.parent is wv
+    keepplace = int(wv.pl.parent is wv)  # 0: orphaned, 1: parent kept, 2: connections kept too
+    wk = Workflow("pvk", autoload=None)
+    wk.a = nodes.F1()
+    wk.b = nodes.F2(a=wk.a)
+    fn3 = os.path.join(os.getcwd(), "pv_probe_dir", "pv_inplace2")
+    wk.b.save(backend="pickle", filename=fn3)
+    wk.b.load(backend="pickle", filename=fn3)
+    if keepplace and wk.b.inputs.a.connections and wk.a.outputs.o.connections[0] is wk.b.inputs.a:
+        keepplace = 2
+    fresh_b = nodes.F2(label="b")
+    fresh_b.load(backend="pickle", filename=fn3)
+    owndet = fresh_b.detached_parent_path is None
+    wh = Workflow("pvh", autoload=None)
+    wh.a = nodes.TypedOut()
+    wh.b = nodes.Typed()
+    wh.b.inputs.i.strict_hints = False
+    wh.b.inputs.i.connect(wh.a.outputs.os)
+    wh.b.inputs.i.strict_hints = True
+    try:
+        pickle.loads(pickle.dumps(wh))
+        reval = False
+    except Exception:  # noqa: BLE001
+        reval = True
     _VARIANT = (int(rev), int(fir), int(push), int(push_out), int(push_for), int(keep), int(skip), int(rebind),
-                int(noview), int(keepplace))
+                int(noview), int(keepplace), int(reval), int(owndet))
     return _VARIANT
 
 
@@ -426,9 +464,80 @@ def _fresh_like(case, path):
 _COUNTER = [0]
 
 
+class _Remote:
+    """stands for a copy that lives in ANOTHER interpreter: only its snapshot (and re-run record) came back"""
+
+    def __init__(self, snapshot, rerun):
+        self.snapshot = snapshot
+        self.rerun = rerun
+
+
+def _roundtrip_newproc(obj, case, path):
+    """save() here, load() in a NEW interpreter with another hash seed (a restart), snapshot taken there"""
+    import json
+    import subprocess
+    import sys
+
+    _COUNTER[0] += 1
+    fn = os.path.join(os.getcwd(), f"np{_COUNTER[0]}")
+    obj.save(backend="pickle", filename=fn)
+    job = {"case": case, "path": path, "file": fn, "rerun": case.get("rerun") if not path else None}
+    jf = fn + ".job.json"
+    with open(jf, "w") as f:
+        json.dump(job, f)
+    env = dict(os.environ)
+    env["PYTHONHASHSEED"] = str(case.get("hashseed", 4242))
+    r = subprocess.run([sys.executable, "-m", "pwh.c07", "--child", jf], env=env, capture_output=True, text=True,
+                       timeout=120, cwd=os.getcwd())
+    out = [ln for ln in r.stdout.splitlines() if ln.startswith("C07CHILD ")]
+    if not out:
+        raise RuntimeError("newproc:" + (r.stderr.strip().splitlines() or ["no output"])[-1][:150])
+    ans = json.loads(out[-1][len("C07CHILD "):])
+    if "error" in ans:
+        e = {"KeyError": KeyError, "AttributeError": AttributeError, "RuntimeError": RuntimeError,
+             "TypeError": TypeError}.get(ans["error"], RuntimeError)
+        raise e(ans.get("msg", ""))
+    return _Remote(ans["snap"], ans.get("rerun"))
+
+
+def _child_main(jobfile):
+    """the other side of `_roundtrip_newproc`"""
+    import json
+
+    from . import nodes
+    from . import nodes_c07 as N
+
+    job = json.load(open(jobfile))
+    case, path = job["case"], job["path"]
+    nodes.reset()
+    _CTL["choices"] = list(case["schedule"]) if case.get("ctl") else None
+    N.SCHED[:] = [N.SnapScheduler(case.get("schedule", []))]
+    try:
+        fresh = _fresh_like(case, path)
+        fresh.load(backend="pickle", filename=job["file"])
+    except BaseException as e:  # noqa: BLE001
+        print("C07CHILD " + json.dumps({"error": type(e).__name__, "msg": str(e)[:200]}))
+        return
+    ans = {"snap": snap(fresh)}
+    if job.get("rerun"):
+        if not case.get("rerun_clear_fail"):
+            for i in case.get("fail", []):
+                nodes.FAIL[i] = {0}
+        if case.get("rerun_eq_cache"):
+            from pyiron_workflow.nodes.composite import Composite
+
+            for n in _all_nodes(fresh):
+                if isinstance(n, Composite):
+                    n._cached_inputs = None
+        ans["rerun"] = _rerun(fresh, job["rerun"])
+    print("C07CHILD " + json.dumps(ans, default=str))
+
+
 def _roundtrip(obj, backend, case, path):
     from . import nodes_c07 as N
 
+    if backend == "newproc":
+        return _roundtrip_newproc(obj, case, path)
     if backend in ("pickle", "cloudpickle"):
         return N.loads(N.dumps(obj, backend), backend)
     _COUNTER[0] += 1
@@ -437,6 +546,27 @@ def _roundtrip(obj, backend, case, path):
     fresh = _fresh_like(case, path)
     fresh.load(backend="pickle", filename=fn)
     return fresh
+
+
+def _resave(root, case, res, stats):
+    """save; edit; save AGAIN at the same place; load: what comes back must be the graph as it was saved last"""
+    fn = os.path.join(os.getcwd(), "resave_dir", "here")
+    stats["resave"] = 1
+    res["resave"] = True
+    try:
+        root.save(backend="pickle", filename=fn)
+        res["edits2"] = [_edit(root, e) for e in case["resave"]]
+        res["before"] = snap(root)
+        root.save(backend="pickle", filename=fn)
+        stats["resave:files:" + "+".join(sorted(x.rsplit(".", 1)[-1] for x in os.listdir(os.path.dirname(fn))))] = 1
+        fresh = _fresh_like(case, [])
+        fresh.load(backend="pickle", filename=fn)
+        return fresh
+    except BaseException as e:  # noqa: BLE001
+        if res.get("before") is None:
+            res["before"] = snap(root)
+        res["error"] = {"round": 0, "cls": type(e).__name__, "msg": str(e)[:200]}
+        return None
 
 
 def _edit(root, e):
@@ -454,9 +584,29 @@ def _edit(root, e):
             comp.add_child(comp.children[e[2]], label=e[3])  # re-labelling through the parent
         elif e[0] == "remove":
             comp.remove_child(e[2])
+        elif e[0] == "addloc":
+            from . import nodes_c07 as N
+
+            n = N.Loc(label=e[2])  # a node whose class cannot be imported: plain pickle will refuse the graph
+            comp.add_child(n)
+            if e[3]:
+                n.inputs.a.connect(comp.children[e[3]].outputs[e[4]])
+        elif e[0] == "setval":
+            comp.children[e[2]].inputs[e[3]].value = e[4]
+        elif e[0] == "strict":
+            comp.children[e[2]].inputs[e[3]].strict_hints = bool(e[4])
+        elif e[0] == "strictall":
+            comp.activate_strict_hints() if e[2] else comp.deactivate_strict_hints()
         return "ok"
     except BaseException as ex:  # noqa: BLE001
         return type(ex).__name__
+
+
+def json_roundtrip(x):
+    """what came back from the other interpreter went through JSON (tuples → lists): same treatment for ours"""
+    import json
+
+    return json.loads(json.dumps(x, default=str))
 
 
 def _all_nodes(n):
@@ -468,16 +618,44 @@ def _all_nodes(n):
             yield from _all_nodes(c)
 
 
-def _run(node):
+_CTL = {"choices": None, "snap_at": None}
+
+
+def _run(node, snap_at=None):
+    """run; when the case works with controllable executors: under a fresh scheduler with the case's choice list"""
+    from . import execsim
+    from . import nodes_c07 as N
+
+    if _CTL["choices"] is None:
+        try:
+            node.run()
+            return "ok"
+        except BaseException as e:  # noqa: BLE001
+            return type(e).__name__
+    sched = N.SCHED[0]
+    sched.choices = list(_CTL["choices"])
+    sched.snap_at = snap_at
+    sched.count = 0
+    sched.points = 0
+    sched.jobs.clear()
     try:
-        node.run()
-        return "ok"
+        with execsim.Instrument(sched):
+            node.run()
+        res = "ok"
     except BaseException as e:  # noqa: BLE001
-        return type(e).__name__
+        res = type(e).__name__
+    try:
+        with execsim.Instrument(sched):
+            sched.drain()
+    except BaseException as e:  # noqa: BLE001
+        res += "+late:" + type(e).__name__
+    return res
 
 
 def _settle(node):
     # wait for executor children, if any
+    if _CTL["choices"] is not None:
+        return  # controllable executors were drained by `_run`
     for n in _all_nodes(node):
         f = getattr(n, "future", None)
         if f is not None:
@@ -535,6 +713,8 @@ def run_impl(case):
     stats = {}
     backend = case["backend"]
     path = list(case.get("target", []))
+    _CTL["choices"] = list(case["schedule"]) if case.get("ctl") else None
+    N.SCHED[:] = [N.SnapScheduler(case.get("schedule", []))]
     root, ext = _build_root(case)
     N.ROOT.append(root)
     res = {"variant": variant(), "rounds": [], "before": None, "error": None, "stats": stats, "rerun": None}
@@ -556,10 +736,10 @@ def run_impl(case):
     state = case["state"]
     for i in case.get("fail", []):
         nodes.FAIL[i] = {0}
-    if state == "midrun":
+    if state in ("midrun", "ctlmid"):
         N.SNAP_HOOK.append(hook)
-    if state in ("run", "fail", "midrun"):
-        res["state_res"] = _run(root)
+    if state in ("run", "fail", "midrun", "ctlmid"):
+        res["state_res"] = _run(root, snap_at=case.get("snap_at") if state == "ctlmid" else None)
         _settle(root)
     elif state == "partial":
         try:
@@ -576,14 +756,26 @@ def run_impl(case):
     if case.get("inplace") and path:
         return _run_inplace(case, root, path, res, stats)
     target = _descend(root, path)
-    mid = N.SNAPS[0] if (state == "midrun" and N.SNAPS) else None
-    if state == "midrun" and mid is None:
+    mid = N.SNAPS[0] if (state in ("midrun", "ctlmid") and N.SNAPS) else None
+    if state in ("midrun", "ctlmid") and mid is None:
         stats["midrun:not-reached"] = 1
-    before = mid["before"] if mid else snap(target)
+    pre_loaded = None
+    if case.get("resave") and not path and mid is None and backend == "file":
+        pre_loaded = _resave(root, case, res, stats)
+    before = res["before"] if case.get("resave") and res.get("before") else (mid["before"] if mid else snap(target))
     res["before"] = before
+    if mid:
+        nrun = sum(1 for _p, x in _walk(before) if x["running"] and not x["children"])
+        stats["mid:leaf-running"] = int(nrun > 0)
+        stats["mid:out-on-executor"] = int(any(x["running"] and x["exec"] != "-" for _p, x in _walk(before)))
     cur = target
     loaded = None
     for r in range(case.get("rounds", 1)):
+        if res.get("resave"):
+            loaded = pre_loaded
+            if loaded is not None:
+                res["rounds"].append(snap(loaded))
+            break
         try:
             if mid is not None and r == 0:
                 if "dump_error" in mid:
@@ -601,13 +793,25 @@ def run_impl(case):
             stats[f"load-error:{type(e).__name__}"] = 1
             loaded = None
             break
-        res["rounds"].append(snap(loaded))
+        res["rounds"].append(loaded.snapshot if isinstance(loaded, _Remote) else snap(loaded))
         cur = loaded
     stats["loaded"] = int(loaded is not None)
 
     # run both again
     how = case.get("rerun")
-    if how and loaded is not None and not path and mid is None:
+    if how and isinstance(loaded, _Remote) and not path and mid is None:
+        if case.get("rerun_clear_fail"):
+            nodes.FAIL.clear()
+        if case.get("rerun_eq_cache"):
+            from pyiron_workflow.nodes.composite import Composite
+
+            for n in _all_nodes(root):
+                if isinstance(n, Composite):
+                    n._cached_inputs = None
+        if loaded.rerun is not None:
+            res["rerun"] = json_roundtrip({"orig": _rerun(root, how), "copy": loaded.rerun})
+            stats["rerun"] = 1
+    elif how and loaded is not None and not path and mid is None:
         if case.get("rerun_clear_fail"):
             nodes.FAIL.clear()
         if case.get("rerun_eq_cache"):
@@ -628,12 +832,13 @@ def run_impl(case):
     rows.append(f"build {rid}")
     if view_row(I, before):
         rows.append(view_row(I, before))
-    v = "%d%d%d%d%d%d %d %d %d" % res["variant"][:9]
+    vr = res["variant"]
+    v = "%d%d%d%d%d%d%d %d %d %d" % (*vr[:6], vr[10], *vr[6:9])
     obs = ["built"]
     if before["has_parent"]:
         # the driver starts from the parent's path: describe the child as a root whose detached path is the parent's
         pass
-    op = "fileload" if backend == "file" else "pickle"
+    op = ("fileloadown" if res["variant"][11] else "fileload") if backend in ("file", "newproc") else "pickle"
     n_ops = len(res["rounds"]) + (1 if res["error"] else 0)
     for _ in range(n_ops):
         rows.append(f"{op} {v}")
@@ -641,7 +846,8 @@ def run_impl(case):
         obs.extend(render(I, s))
     if res["error"]:
         cls = res["error"]["cls"]
-        obs.append("error " + {"KeyError": "key", "AttributeError": "attr", "RuntimeError": "runtime", "TypeError": "type"}.get(cls, "other:" + cls))
+        obs.append("error " + {"KeyError": "key", "AttributeError": "attr", "RuntimeError": "runtime", "TypeError": "type",
+                               "ChannelConnectionError": "conn"}.get(cls, "other:" + cls))
     if case.get("malformed"):
         junk = ["conn 0 x i 1 0", "pickle 2 0 0", "flags 99 0 0 - -", "din 0 a b c", "node 0 - 0 0 q", "frobnicate",
                 "conn 0 d i 1 0 2", "fileload 0 0"]
@@ -686,7 +892,8 @@ def _run_inplace(case, root, path, res, stats):
     for lab in path[:-1]:
         rows.append(f"descend {I('node', lab)}")
         obs.append("descended")
-    rows.append("inplace %d %s %d" % (I("node", path[-1]), "%d%d%d%d%d%d" % res["variant"][:6], res["variant"][9]))
+    vr = res["variant"]
+    rows.append("inplace %d %s %d" % (I("node", path[-1]), "%d%d%d%d%d%d%d" % (*vr[:6], vr[10]), vr[9]))
     if res["error"]:
         cls = res["error"]["cls"]
         obs.append("error " + {"KeyError": "key", "AttributeError": "attr", "RuntimeError": "runtime",
@@ -706,7 +913,7 @@ def _as_detached(I, before, res):
     rows = []
     rid = model_rows(I, b, rows)
     rows.append(f"build {rid}")
-    tail = [r for r in res["model"] if r.split()[0] in ("pickle", "fileload")]
+    tail = [r for r in res["model"] if r.split()[0] in ("pickle", "fileload", "fileloadown")]
     return rows + tail
 
 
@@ -738,6 +945,8 @@ def _cause(before, rnd=0, backend="pickle"):
     if rnd >= 1 and backend == "file" and before["kind"] in ("m", "f") and before["ilinks"]:
         # second generation of a node that came out of load(): its channels belong to the unpickled twin
         return "twin-owner"
+    if any(s.get("refused") for _p, s in _walk(before)):
+        return "refused-connection"
     for p, s in _walk(before):
         labels = {c["label"] for c in s["children"]}
         for k, cl, cx, inside in s["ilinks"]:
@@ -828,17 +1037,15 @@ def _compare(before, after, child_alone):
             return _fail("starting-nodes", f"{p}: {b['start']} -> {a['start']}")
         be = "-" if b["exec"] == "live" else b["exec"]
         bb = "-" if b["bexec"] == "live" else b["bexec"]
-        if be != a["exec"] or bb != a["bexec"]:
+        if a["exec"] not in (be, b["exec"]) or a["bexec"] not in (bb, b["bexec"]):
             return _fail("executor", f"{p}: {b['exec']} -> {a['exec']}")
     if child_alone:
         if after["has_parent"]:
             return _fail("child-alone", "the unpickled child has a parent")
         if after["own_conns"]:
             return _fail("child-alone", "the unpickled child is still connected to something")
-        if after["det"] != before["parent_path"]:
-            return _fail("child-alone", f"detached path {after['det']} != parent path {before['parent_path']}")
     else:
-        if after["has_parent"] != before["has_parent"] or after["det"] != before["det"]:
+        if after["has_parent"] != before["has_parent"] or (after["det"] != before["det"] and not before["has_parent"]):
             return _fail("root", f"parent/detached path changed: {before['det']} -> {after['det']}")
     return None
 
@@ -853,6 +1060,8 @@ def oracle(case, impl):
         f = _compare(before, after, child_alone)
         if f is not None:
             f["detail"] = f"round {r + 1} ({case['backend']}): " + f["detail"]
+            if impl.get("inplace"):
+                f["signature"]["cause"] = "load-in-place"
             if f["clause"] in ("data-connections", "signal-connections") and _cause(before) == "foreign-connection":
                 f["signature"]["cause"] = "foreign-connection"
             return [f]
@@ -876,8 +1085,13 @@ def oracle(case, impl):
                 return [_fail("rerun-outcome", f"step {k}: original {so.get('res')} vs copy {sc.get('res')}",
                               cause=cause)]
             calls_o, calls_c = so.get("calls", []), sc.get("calls", [])
-            if case.get("has_executor"):
+            if case.get("has_executor") or case["backend"] == "newproc":
+                # the order among INDEPENDENT nodes comes from iterating Python sets (starting nodes of a DAG layer):
+                # it depends on the interpreter's hash seed, not on the graph — compared as multisets there
                 calls_o, calls_c = sorted(calls_o), sorted(calls_c)
+            if case["backend"] == "newproc":
+                so = dict(so, state=[x[:5] + [sorted(x[5])] for x in so.get("state", [])])
+                sc = dict(sc, state=[x[:5] + [sorted(x[5])] for x in sc.get("state", [])])
             if calls_o != calls_c:
                 return [_fail("rerun-execution-order", f"step {k}: calls {calls_o} vs {calls_c}", cause=cause)]
             if so.get("state") != sc.get("state"):
@@ -932,7 +1146,9 @@ def _gen_graph(rng, depth, opts, in_macro_args=None):
             cs["spec"] = _gen_graph(rng, depth - 1, opts, MACRO_ARGS[k])
         if rng.random() < 0.08 and k == "F":
             cs["nocache"] = True
-        if rng.random() < opts.get("p_exec", 0.0) and k == "F" and not opts.get("has_executor"):
+        if opts.get("ctl") and k in ("F", "M1", "M2", "M3") and rng.random() < 0.55:
+            cs["exec"] = rng.choice(["ctl", "ctl", "ctli"])
+        elif rng.random() < opts.get("p_exec", 0.0) and k == "F" and not opts.get("has_executor"):
             cs["exec"] = "instr"
             opts["has_executor"] = True
         ins, outs = KIND_IO[k]
@@ -1014,7 +1230,8 @@ def _gen_graph(rng, depth, opts, in_macro_args=None):
         # a hand-wired flow does not wait for a node that is out on an executor: what its neighbours fetch would
         # depend on wall-clock time. Executors only where the DAG wiring makes every consumer wait.
         for c in children:
-            c.pop("exec", None)
+            if c.get("exec") == "instr":
+                c.pop("exec")
     return spec
 
 
@@ -1070,6 +1287,11 @@ def _mk_case(rng, tier, mode):
     opts = {"multi": mode != "atmost1", "signals": True, "next_f": rng.randrange(28), "snap": None,
             "allow_unused": mode == "unused", "p_exec": 0.04, "allow_loc": backend != "pickle"}
     state = rng.choice(["fresh", "run", "run", "run", "fail", "fail", "partial", "midrun", "midrun"])
+    if mode != "foreign" and rng.random() < 0.2:
+        # controllable executors: children out on the executor at exactly known points of the run
+        opts["ctl"] = True
+        opts["p_exec"] = 0.0
+        state = rng.choice(["run", "fail", "ctlmid", "ctlmid", "ctlmid"])
     depth = rng.choice([0, 1, 1, 2, 2, 3] if tier == "thorough" else [0, 1, 1, 2])
     r = rng.random()
     if state == "midrun":
@@ -1111,15 +1333,46 @@ def _mk_case(rng, tier, mode):
     if opts["snap"] is not None and state == "midrun":
         state = "run"  # no place for the snap node was found
     opts["has_executor"] = any(c.get("exec") for _p, c in _paths(root["spec"])) if "spec" in root else False
+    if opts.get("ctl"):
+        if "spec" not in root or state == "midrun":
+            opts["ctl"] = False
+            if state == "ctlmid":
+                state = "run"
     case = {"root": root, "state": state, "mode": mode,
             "backend": backend,
             "rounds": rng.choice([1, 1, 2]), "target": [], "fail": [], "has_executor": bool(opts.get("has_executor"))}
+    if backend == "file" and state not in ("midrun", "ctlmid") and not case.get("inplace") and rng.random() < (0.03 if tier == "quick" else 0.1):
+        # a restart: the file is read back by a NEW interpreter with another hash seed
+        case["backend"] = "newproc"
+        case["rounds"] = 1
+        case["hashseed"] = rng.randrange(1, 10**6)
+    if (backend == "file" and case["backend"] == "file" and root["kind"] == "wf" and not case["target"]
+            and state not in ("midrun", "ctlmid") and mode != "foreign" and rng.random() < 0.15):
+        # save, edit, save again at the same place (the second save may need the other file format), load
+        tops = [c for c in root["spec"]["children"] if c["kind"] == "F"]
+        ed = []
+        k = rng.random()
+        if k < 0.6:
+            src = rng.choice(tops) if tops and rng.random() < 0.7 else None
+            ed.append(["addloc", [], "zloc", src["label"] if src else None, "o"])
+        if tops and (k >= 0.4):
+            ed.append(["setval", [], rng.choice(tops)["label"], "c", "resaved"])
+        if ed:
+            case["resave"] = ed
+            case["rounds"] = 1
+            case.pop("rerun", None)
+    if opts.get("ctl"):
+        case["ctl"] = True
+        # 0 at an emission point = let the jobs stay out; the idle point must complete one anyway
+        case["schedule"] = [rng.choice([0, 0, 0, 1, 2, 3]) for _ in range(14)]
+        if state == "ctlmid":
+            case["snap_at"] = rng.randint(1, 5)
     paths = list(_paths(root["spec"])) if "spec" in root else []
     if paths and rng.random() < 0.2:
         p, c = rng.choice(paths)
         if c["kind"] not in ("snap", "forsnap"):
             case["target"] = p
-    if case["target"] and backend == "file" and state != "midrun" and rng.random() < 0.5:
+    if case["target"] and backend == "file" and state not in ("midrun", "ctlmid") and rng.random() < 0.5:
         case["inplace"] = True
         case["rounds"] = 1
     if state == "fail":
@@ -1134,7 +1387,7 @@ def _mk_case(rng, tier, mode):
             case["pull"] = [rng.choice(top)["label"]]
         else:
             case["state"] = "run"
-    if not case["target"] and state != "midrun":
+    if not case["target"] and state not in ("midrun", "ctlmid"):
         rr = rng.random()
         if case["state"] == "fail":
             case["rerun"] = ["run", "reset", "run"]
@@ -1224,12 +1477,45 @@ def _exhaustive():
 EXHAUSTIVE = {"quick": False, "thorough": True}
 
 
+def _hint_case(rng):
+    """typed nodes whose strictness changes between connecting and saving"""
+    kids = [{"label": "a", "kind": "TO", "const": {}}, {"label": "b", "kind": "T", "const": {}, "nonstrict": []},
+            {"label": "c", "kind": "T", "const": {}, "nonstrict": []}]
+    pairs = [("i", "oi"), ("i", "os"), ("s", "os"), ("s", "oi"), ("b", "ob"), ("u", "os"), ("i", "ob")]
+    data, edits = [], []
+    for tgt in ("b", "c"):
+        for _ in range(rng.randint(1, 2)):
+            inp, out = rng.choice(pairs)
+            ok = (inp, out) in (("i", "oi"), ("s", "os"), ("b", "ob"), ("u", "os"), ("i", "ob"))
+            child = next(k for k in kids if k["label"] == tgt)
+            if any(d[0] == tgt and d[1] == inp for d in data):
+                continue
+            if not ok or rng.random() < 0.3:
+                if inp not in child["nonstrict"]:
+                    child["nonstrict"].append(inp)
+            data.append([tgt, inp, ["child", "a", out]])
+    r = rng.random()
+    if r < 0.5:
+        for k in kids:
+            for inp in k.get("nonstrict", []):
+                if rng.random() < 0.8:
+                    edits.append(["strict", [], k["label"], inp, True])
+    elif r < 0.8:
+        edits.append(["strictall", [], True])
+    root = {"kind": "wf", "label": "w", "spec": {"children": kids, "data": data}}
+    return {"root": root, "state": "fresh", "mode": "hints", "backend": rng.choice(["pickle", "cloudpickle", "file"]),
+            "rounds": rng.choice([1, 2]), "target": [], "fail": [], "has_executor": False, "edits": edits}
+
+
 def gen_cases(rng, tier):
-    n = 600 if tier == "quick" else 20000
+    n = 450 if tier == "quick" else 20000
     if tier == "thorough":
         yield from _exhaustive()
     for k in range(n):
         r = k % 20
+        if k % 25 == 7:
+            yield _hint_case(rng)
+            continue
         if r < 10:
             mode = "atmost1"
         elif r < 18:
@@ -1314,6 +1600,46 @@ def corpus():
            "fail": [], "mode": "corpus"}
     yield {"root": m1, "state": "fresh", "backend": "file", "rounds": 1, "target": ["m"], "inplace": True,
            "fail": [], "mode": "corpus"}
+    # KF-C07-10 witness: connected while not strict, strict again when saved
+    yield {"root": {"kind": "wf", "label": "w", "spec": {"children": [
+        {"label": "a", "kind": "TO", "const": {}}, {"label": "b", "kind": "T", "const": {}, "nonstrict": ["i"]}],
+        "data": [["b", "i", ["child", "a", "os"]]]}}, "state": "fresh", "mode": "hints", "backend": "pickle",
+        "rounds": 1, "target": [], "fail": [], "edits": [["strict", [], "b", "i", True]]}
+    # a child OUT on a (controllable) executor when the workflow is pickled at its idle point; live executor object
+    # and executor instructions; plain pickle and save()/load()
+    for ex, be in (("ctl", "pickle"), ("ctli", "file"), ("ctli", "cloudpickle")):
+        g = {"kind": "wf", "label": "w", "spec": {"children": [dict(_leafF("a", 1, a=1), exec=ex), _leafF("b", 2)],
+                                                   "data": [["b", "a", ["child", "a", "o"]]]}}
+        yield {"root": g, "state": "ctlmid", "ctl": True, "schedule": [0, 0, 0, 0], "snap_at": 1, "backend": be,
+               "rounds": 2, "target": [], "fail": [], "has_executor": True, "mode": "corpus"}
+    # a restart: saved here, loaded by a new interpreter with another hash seed (for-loop: injected node labels)
+    yield {"root": {"kind": "wf", "label": "w", "spec": {"children": [
+        _leafF("a", 1, a=1), {"label": "f", "kind": "for", "const": {"a": [1, 2]}}, m1["spec"]["children"][0]],
+        "data": [["f", "b", ["child", "a", "o"]]]}}, "state": "run", "backend": "newproc", "hashseed": 77, "rounds": 1,
+        "target": [], "fail": [], "rerun": ["run"], "rerun_eq_cache": True, "mode": "corpus"}
+    # the doubly connected input at EVERY nesting depth (workflow ⊃ macro ⊃ macro), every back end, round trip of the
+    # round trip; Node.load restates only the top composite twice (C07_file_double_restore)
+    def lvl(inner):
+        kids = [_leafF("a", 1), _leafF("b", 2), _leafF("c", 3)]
+        data = [["a", "a", ["arg", "x"]], ["b", "a", ["arg", "x"]], ["c", "a", ["child", "a", "o"]],
+                ["c", "a", ["child", "b", "o"]]]
+        if inner is not None:
+            kids.append({"label": "m", "kind": "M1", "const": {}, "spec": inner})
+            data.append(["m", "x", ["child", "c", "o"]])
+            return {"children": kids, "data": data, "returns": [["m", "out"]]}
+        return {"children": kids, "data": data, "returns": [["c", "o"]]}
+
+    deep = {"kind": "wf", "label": "w", "spec": {"children": [
+        _leafF("a", 1, a=1), _leafF("b", 2, a=2), _leafF("c", 3),
+        {"label": "m", "kind": "M1", "const": {}, "spec": lvl(lvl(None))}],
+        "data": [["c", "a", ["child", "a", "o"]], ["c", "a", ["child", "b", "o"]], ["m", "x", ["child", "c", "o"]]]}}
+    for be in ("pickle", "cloudpickle", "file"):
+        yield {"root": deep, "state": "run", "backend": be, "rounds": 2, "target": [], "fail": [], "rerun": ["run"],
+               "rerun_eq_cache": True, "mode": "corpus"}
+        yield {"root": deep, "state": "fresh", "backend": be, "rounds": 2, "target": ["m", "m"], "fail": [],
+               "mode": "corpus"}
+    yield {"root": deep, "state": "run", "backend": "file", "rounds": 1, "target": ["m", "m", "c"], "inplace": True,
+           "fail": [], "mode": "corpus"}
     # a child on its own, nested, all three back ends
     for be in ("pickle", "cloudpickle", "file"):
         yield {"root": m1, "state": "run", "backend": be, "rounds": 2, "target": ["m", "c"], "fail": [], "mode": "corpus"}
@@ -1329,6 +1655,12 @@ def corpus():
     for be in ("cloudpickle", "file"):
         yield {"root": loc, "state": "run", "backend": be, "rounds": 2, "target": [], "fail": [], "rerun": ["run"],
                "rerun_eq_cache": True, "mode": "corpus"}
+    # save (plain pickle works), add a node class that cannot be imported, save again at the same place (cloudpickle
+    # fallback), load: the LAST save must come back
+    yield {"root": w1, "state": "run", "backend": "file", "rounds": 1, "target": [], "fail": [],
+           "resave": [["addloc", [], "zloc", "a", "o"], ["setval", [], "b", "c", "resaved"]], "mode": "corpus"}
+    yield {"root": loc, "state": "run", "backend": "file", "rounds": 1, "target": [], "fail": [],
+           "resave": [["setval", [], "a", "c", "resaved"]], "mode": "corpus"}
 
 
 def shrink_candidates(case):
@@ -1385,3 +1717,10 @@ def shrink_candidates(case):
         c = copy.deepcopy(case)
         c["backend"] = "pickle"
         yield c
+
+
+if __name__ == "__main__":
+    import sys as _sys
+
+    if len(_sys.argv) == 3 and _sys.argv[1] == "--child":
+        _child_main(_sys.argv[2])
